@@ -83,7 +83,7 @@ func iterStream(cfg *Config) *hx.Stats {
 		iterNestedReadOnly(cfg, st, w, rng, nProg+nNested+p)
 		st.Programs++
 	}
-	iterCheckRequired(cfg, st, append(append([]string{}, iterRequired...), iterNestRequired...))
+	iterCheckRequired(cfg, st, append(append(append([]string{}, iterRequired...), iterNestRequired...), iterLoadedRequired...))
 	st.TraceLines = w.Lines
 	st.Distinct = iterDistinct
 	atree.VerifSetThreshold(1024)
@@ -570,6 +570,7 @@ func iterArrayProgram(cfg *Config, st *hx.Stats, w *hx.W, rng *rand.Rand, p int)
 		for k := 0; k < 8; k++ {
 			e.itLoadedRound(k)
 		}
+		e.itLoadedHoles()
 		e.itFlavours()
 		e.itStop()
 		e.itObj()
@@ -680,6 +681,7 @@ func (e *itArr) itLoadedRound(k int) {
 		e.violation("C13", fmt.Sprintf("partially loaded array (%d of %d slabs): %d yielded values are not an in-order subsequence of the %d elements",
 			len(ld), len(ids), len(got), len(e.shadow)))
 	}
+	e.loadedExact(fmt.Sprintf("partially loaded array (%d of %d slabs)", len(ld), len(ids)), fresh, got)
 	if len(ld) == len(ids) {
 		e.st.Hit("arr:loaded:all")
 		if !equalTV(got, e.shadow) {
@@ -1123,6 +1125,7 @@ func iterMapProgram(cfg *Config, st *hx.Stats, w *hx.W, rng *rand.Rand, p int) {
 		for k := 0; k < 8; k++ {
 			e.itLoadedRound(k, mkBuilder)
 		}
+		e.itLoadedHoles(mkBuilder)
 		lastFull = e.itFlavours(mkBuilder)
 		e.itStop(mkBuilder)
 		e.itObj(mkBuilder)
@@ -1305,6 +1308,7 @@ func (e *itMap) itLoadedRound(k int, mk func() atree.DigesterBuilder) {
 		e.violation("C13", fmt.Sprintf("partially loaded map (%d of %d slabs): %d yielded entries are not an in-order subsequence of the %d entries",
 			len(ld), len(ids), len(got), len(full)))
 	}
+	e.loadedExact(fmt.Sprintf("partially loaded map (%d of %d slabs)", len(ld), len(ids)), fresh, got)
 	if len(ld) == len(ids) {
 		e.st.Hit("map:loaded:all")
 		if len(got) != len(full) {
